@@ -375,6 +375,6 @@ def cmp_vals(x, y):
 
 MANIFEST = {
     "technique": "property-based testing (Hypothesis) with a metamorphic oracle: the same scenario under mpiexec with P ranks, T threads and hook-injected dispatch delays vs one rank / one thread",
-    "text": "Seeded random search over models, rank/thread counts, delay seeds (POMEROL_VERIF hook) and 2PGF workloads (stand-alone, container split/unsplit, purge on/off, up to 200 frequencies); every rank's eigen-system, G values, chi term representation and the frequency tables are compared with a single-rank single-thread run, and a reproduced timeout is a hang.",
+    "text": "Seeded random search over models, rank/thread counts, delay seeds (POMEROL_VERIF hook) and 2PGF workloads (stand-alone, container split/unsplit, purge on/off, up to 200 frequencies); every rank's eigen-system, G values, chi term representation and the frequency tables are compared with a single-rank single-thread run, and a reproduced timeout is a hang. User-set precision knobs and near-resonant level splittings are part of the generated configuration; a sweep runs the split container path on 17-40 ranks and Hubbard chains with blocks up to 1225x1225 are diagonalised on 2-16 ranks (reference-free eigen-system invariants on every rank).",
     "note": "Trusted: the runner, Open MPI/Boost.MPI. Timings are sampled (hook delays vary the assignment), not covered.",
 }
